@@ -428,7 +428,9 @@ def run(tier, seed):
     run.rule = ("texts loaded through the real loader: bundled definitions.units and currency.units under line/token deletion, "
                 "duplication, swapping, truncation, CRLF and continuation damage; the currency snapshot JSON truncated, with wrong "
                 "types, bad expressions, collisions and deep nesting; grammar-directed random files (units, both prefix kinds, "
-                "quantities, substances with zero/negative/mismatched properties, categories, docs, pragmas); dependency cycles "
+                "quantities, prefix and quantity power arithmetic with zero bases and i32/i64 boundary exponents, substances with "
+                "zero/negative/mismatched properties, molar masses of any dimensionality with chemical symbols and formulas over them, "
+                "categories, docs, pragmas); valid files with nested prefixes; two-file loads with alias loops; dependency cycles "
                 "through units, prefixes, quantities and substance properties of length 1..5000 and alias/value chains to 5000; "
                 "random date-pattern files; non-trivial = distinct (mutation class), error-message family, cycle/chain shape")
     run.assumptions = ["recursion depth claim: chains and cycles up to 5000 definitions on the probe's 8 MiB stack (deeper is out of the claimed bound)",
